@@ -134,6 +134,106 @@ def _run_rsfacts(outdir):
         shutil.rmtree(target, ignore_errors=True)
 
 
+A64_TARGET = "aarch64-unknown-linux-gnu"
+A64_PACKAGES = ["dora-asm", "dora-compiler", "dora-cannon-compiler", "dora-runtime", "dora-startup"]
+A64_TARGET_DIR = os.path.join(CACHE, "a64-target")
+A64_RUSTFLAGS = "-Zmir-opt-level=0 -Awarnings"
+
+
+def _a64_cargo(extra_env, sel, cwd):
+    """`cargo +nightly check -Zbuild-std --target aarch64-unknown-linux-gnu`: no aarch64 rust-std is installed, but
+    rust-src is, and every crate the standard library needs is in the offline cargo cache (the same set miri's
+    sysroot build uses), so core/alloc/std are *checked* from source for the foreign target.  Only metadata is
+    produced: no linker, no aarch64 C toolchain is needed."""
+    env = _env()
+    env["LD_LIBRARY_PATH"] = os.path.join(_nightly_sysroot(), "lib") + ":" + env.get("LD_LIBRARY_PATH", "")
+    env["RUSTFLAGS"] = A64_RUSTFLAGS
+    env["CARGO_TARGET_DIR"] = A64_TARGET_DIR
+    env.pop("RUSTC_WRAPPER", None)
+    env.pop("RUSTC_WORKSPACE_WRAPPER", None)
+    env.update(extra_env)
+    return subprocess.run(["cargo", "+nightly", "check", "--offline", "-Zbuild-std=core,alloc,std,panic_unwind",
+                           "--target", A64_TARGET] + sel, cwd=cwd, env=env,
+                          stdout=subprocess.PIPE, stderr=subprocess.STDOUT, text=True)
+
+
+def prebuild_a64_sysroot():
+    """bin/setup: check the standard library for aarch64 once so that later fact builds only check the workspace."""
+    os.makedirs(CACHE, exist_ok=True)
+    with open(os.path.join(CACHE, "a64-target.lock"), "w") as lk:
+        fcntl.flock(lk, fcntl.LOCK_EX)
+        r = _a64_cargo({}, ["-p", "dora-asm"], REPO)
+        if r.returncode != 0:
+            raise AnalysisError("a64-sysroot", r.stdout[-1500:])
+
+
+def _run_rsfacts_a64(outdir):
+    """The second Rust fact set: the workspace members that contain `cfg(target_arch = "aarch64")` code, type-checked
+    for aarch64 with the same driver.  The target directory is kept (the standard library's metadata is a function of
+    the toolchain only); the workspace members' fingerprints are removed first so that cargo cannot skip the driver."""
+    if not os.path.exists(RSFACTS_BIN):
+        build_engines()
+    os.makedirs(CACHE, exist_ok=True)
+    pk = [p for p in A64_PACKAGES if not PACKAGES or p in PACKAGES]
+    if not pk:
+        raise AnalysisError("a64", "no aarch64-relevant package among VERIF_PACKAGES=%s" % ",".join(PACKAGES))
+    sel = []
+    for p in pk:
+        sel += ["-p", p]
+    with open(os.path.join(CACHE, "a64-target.lock"), "w") as lk:
+        fcntl.flock(lk, fcntl.LOCK_EX)
+        for fp in glob.glob(os.path.join(A64_TARGET_DIR, "*", "debug", ".fingerprint", "dora*")) + \
+                glob.glob(os.path.join(A64_TARGET_DIR, "debug", ".fingerprint", "dora*")):
+            shutil.rmtree(fp, ignore_errors=True)
+        r = _a64_cargo({"RUSTC_WORKSPACE_WRAPPER": RSFACTS_BIN, "RSFACTS_OUT": outdir}, sel, REPO)
+    if r.returncode != 0:
+        lines = r.stdout.splitlines()
+        first = [l for l in lines if l.startswith("error")]
+        raise AnalysisError("cargo-check-aarch64", (first[0] if first else "\n".join(lines[-15:])))
+
+
+def ensure_a64(d, verbose=True):
+    """Facts for the aarch64 configuration, built lazily (only the rules that look at target-specific code ask)."""
+    sub = os.path.join(d, "rs-a64")
+    h = os.path.basename(d)[6:]
+    lock = open(os.path.join(CACHE, "lock-a64-" + h), "w")
+    fcntl.flock(lock, fcntl.LOCK_EX)
+    try:
+        if os.path.exists(os.path.join(sub, "OK")):
+            return sub
+        failed = os.path.join(sub, "FAILED")
+        if os.path.exists(failed):
+            st, det = open(failed).read().split("\n", 1)
+            raise AnalysisError(st, det)
+        shutil.rmtree(sub, ignore_errors=True)
+        os.makedirs(sub)
+        t0 = time.time()
+        if verbose:
+            print("[facts] building aarch64 facts for tree %s ..." % h, file=sys.stderr, flush=True)
+        try:
+            _run_rsfacts_a64(sub)
+            need = [p.replace("-", "_") for p in A64_PACKAGES if not PACKAGES or p in PACKAGES]
+            have = {os.path.basename(p).split(".")[0] for p in glob.glob(os.path.join(sub, "*.json"))}
+            missing = [n for n in need if n not in have]
+            if missing:
+                raise AnalysisError("rsfacts-aarch64", "no fact file written for %s" % ",".join(missing))
+        except AnalysisError as e:
+            with open(failed, "w") as fh:
+                fh.write("%s\n%s" % (e.stage, e.detail))
+            raise
+        if tree_hash() != h:
+            shutil.rmtree(sub, ignore_errors=True)
+            raise AnalysisError("facts", "/repo changed while aarch64 facts were extracted")
+        with open(os.path.join(sub, "OK"), "w") as fh:
+            fh.write("%.1f\n" % (time.time() - t0))
+        if verbose:
+            print("[facts] aarch64 facts done in %.1fs" % (time.time() - t0), file=sys.stderr, flush=True)
+        return sub
+    finally:
+        fcntl.flock(lock, fcntl.LOCK_UN)
+        lock.close()
+
+
 def _run_dorafacts(outfile):
     _build_dorafacts()
     files = sorted(glob.glob(os.path.join(REPO, "pkgs", "**", "*.dora"), recursive=True))
@@ -199,10 +299,11 @@ def ensure_facts(verbose=True, _retry=0):
                 continue
             if os.path.exists(os.path.join(old, "OK")) or os.path.exists(os.path.join(old, "FAILED")):
                 shutil.rmtree(old, ignore_errors=True)
-                try:
-                    os.remove(os.path.join(CACHE, "lock-" + os.path.basename(old)[6:]))
-                except OSError:
-                    pass
+                for lk in ("lock-", "lock-a64-"):
+                    try:
+                        os.remove(os.path.join(CACHE, lk + os.path.basename(old)[6:]))
+                    except OSError:
+                        pass
         return d
     finally:
         fcntl.flock(lock, fcntl.LOCK_UN)
@@ -213,17 +314,27 @@ _CRATE_RE = re.compile(r"(?<![\w$:])crate::")
 
 
 class Facts:
-    def __init__(self, d=None):
+    def __init__(self, d=None, sub="rs"):
         self.dir = d or ensure_facts()
+        self.sub = sub
         self._rs = {}
         self._dora = None
         self._index = None
+        self._a64 = None
+
+    def a64(self):
+        """The same workspace type-checked for aarch64 (`cfg(target_arch = "aarch64")` code: masm/arm64.rs, the arm64
+        trampolines, cpu/arm64.rs).  Only the crates in A64_PACKAGES are present."""
+        if self._a64 is None:
+            ensure_a64(self.dir)
+            self._a64 = Facts(self.dir, sub="rs-a64")
+        return self._a64
 
     # ---- rust -----------------------------------------------------------
     def _files(self):
         if self._index is None:
             idx = {}
-            for p in sorted(glob.glob(os.path.join(self.dir, "rs", "*.json"))):
+            for p in sorted(glob.glob(os.path.join(self.dir, self.sub, "*.json"))):
                 name = os.path.basename(p)
                 parts = name.split(".")
                 crate, ctype = parts[0], parts[1]
